@@ -89,15 +89,19 @@ def clear_gap(r0: float, l1: float) -> bool:
 
 
 @st.composite
-def pairs(draw, min_bins=1, max_bins=12, gapped: Optional[bool] = None):
-    """List of [left, right] pairs; consecutive or with *clear* gaps."""
+def pairs(draw, min_bins=1, max_bins=12, gapped: Optional[bool] = None, narrow: bool = False):
+    """List of [left, right] pairs; consecutive or with *clear* gaps.
+
+    narrow=True additionally allows real gaps that are narrower than physt's allclose
+    tolerance (for code paths that compare edges exactly, i.e. N-D axes)."""
     e = draw(edges(min_bins, max_bins))
     ps = [[a, b] for a, b in zip(e[:-1], e[1:])]
     want_gaps = draw(st.booleans()) if gapped is None else gapped
     if want_gaps and len(ps) >= 1:
         # two ways of making a gap: drop interior bins, shrink right edges
         keep = draw(st.lists(st.booleans(), min_size=len(ps), max_size=len(ps)))
-        shr = draw(st.lists(st.sampled_from([1.0, 1.0, 0.5, 0.75, 0.25]), min_size=len(ps), max_size=len(ps)))
+        shr_opts = [1.0, 1.0, 0.5, 0.75, 0.25] + ([1 - 1e-7, 1 - 1e-12, 1 - 1e-4] if narrow else [])
+        shr = draw(st.lists(st.sampled_from(shr_opts), min_size=len(ps), max_size=len(ps)))
         new = []
         for i, (p, k, s) in enumerate(zip(ps, keep, shr)):
             if not k and 0 < i < len(ps) - 1:
@@ -113,7 +117,7 @@ def pairs(draw, min_bins=1, max_bins=12, gapped: Optional[bool] = None):
         # repair gaps that sit inside physt's tolerance band: close them
         for i in range(len(ps) - 1):
             r0, l1 = ps[i][1], ps[i + 1][0]
-            if l1 != r0 and not clear_gap(r0, l1):
+            if l1 != r0 and not clear_gap(r0, l1) and not narrow:
                 ps[i][1] = l1
     return ps
 
@@ -164,6 +168,8 @@ def weights_for(n: int, kinds=("none", "int", "dyadic", "float")):
         opts.append(st.lists(dyadics(256, 3), min_size=n, max_size=n).map(lambda w: ("dyadic", w)))
     if "float" in kinds:
         opts.append(st.lists(st.floats(0.0, 1000.0, allow_nan=False), min_size=n, max_size=n).map(lambda w: ("float", w)))
+    if "signed" in kinds:
+        opts.append(st.lists(st.builds(lambda k, m: k / (1 << m), st.integers(-64, 256), st.integers(0, 2)), min_size=n, max_size=n).map(lambda w: ("signed", w)))
     return st.one_of(*opts)
 
 
